@@ -968,12 +968,17 @@ func (p *Policy) validURL(rawurl string) (string, bool) {
 			return "", false
 		}
 
+		// dropping an empty fragment or query can expose white space that
+		// the trimming above could not see, trim again so that the result
+		// is stable when it is sanitized once more
+		normalised := func() string { return strings.TrimSpace(u.String()) }
+
 		if u.Scheme != "" {
 			urlPolicies, ok := p.allowURLSchemes[u.Scheme]
 			if !ok {
 				for _, r := range p.allowURLSchemeRegexps {
 					if r.MatchString(u.Scheme) {
-						return u.String(), true
+						return normalised(), true
 					}
 				}
 
@@ -981,12 +986,12 @@ func (p *Policy) validURL(rawurl string) (string, bool) {
 			}
 
 			if len(urlPolicies) == 0 {
-				return u.String(), true
+				return normalised(), true
 			}
 
 			for _, urlPolicy := range urlPolicies {
 				if urlPolicy(u) {
-					return u.String(), true
+					return normalised(), true
 				}
 			}
 
@@ -994,8 +999,8 @@ func (p *Policy) validURL(rawurl string) (string, bool) {
 		}
 
 		if p.allowRelativeURLs {
-			if u.String() != "" {
-				return u.String(), true
+			if normalised() != "" {
+				return normalised(), true
 			}
 		}
 
